@@ -9,12 +9,12 @@ FIX_COMMITS = ["3d29a15d", "ccb20ab7", "6a4c8968", "8f04a981", "afa8cd74", "2d15
 CHECKS = {
  "C11": ("E", "exploration",
          "bounded-exhaustive enumeration of integer values and atoms against a reference codec",
-         "Every encoder/decoder site is run on every u64 length-class boundary +-2, the dense range [0,2^24) (quick) / [0,2^32) (thorough), every boundary of i8..i128/u8..u128 and all 12.2M atoms of length <= 10 over {00,01,7f,80,ff}; the oracle is the harness's own minimal two's-complement codec. Exhaustive inside those sets; values above 2^32 away from boundaries are not covered.",
+         "Every encoder/decoder site is run on every u64 length-class boundary +-2, the dense range [0,2^27) (quick) / [0,2^32) (thorough), every boundary of i8..i128/u8..u128 and all 12.2M atoms of length <= 10 over {00,01,7f,80,ff}; the oracle is the harness's own minimal two's-complement codec. Exhaustive inside those sets; values above 2^32 away from boundaries are not covered.",
          "trusts: harness codec mc::sx::enc_*; sha2 crate; clvmr's Allocator for holding atoms",
          "DESIGN.md#c11"),
  "C18": ("H", "model_checking",
          "explicit-state BFS over operation histories of the real MerkleBlob with exact state keys, map + independent root recomputation as reference",
-         "Every operation sequence up to depth 5 over 3 keys (quick) / depth 6 over 4 keys (thorough) from the alphabet {insert at Auto/AsRoot/every block index and side, insert/upsert with a hash owned by another key, upsert, delete, every batch of <=2 (quick) / <=3 (thorough) entries, calculate_lazy_hashes, reload} is applied to the real blob; states are deduplicated on (blob bytes, free-list order). Transition oracle: Ok => contents equal the plain map after the op, Err => bytes/free list/contents unchanged, no panic. State invariant: check_integrity, reload equivalence, root == own bottom-up recomputation, every key has a proof that folds (own SHA-256) to the root.",
+         "Every operation sequence up to depth 6 over 3 keys (quick) / depth 6 over 4 keys (thorough) from the alphabet {insert at Auto/AsRoot/every block index and side, insert/upsert with a hash owned by another key, upsert, delete, every batch of <=2 (quick) / <=3 (thorough) entries, calculate_lazy_hashes, reload} is applied to the real blob; states are deduplicated on (blob bytes, free-list order). Transition oracle: Ok => contents equal the plain map after the op, Err => bytes/free list/contents unchanged, no panic. State invariant: check_integrity, reload equivalence, root == own bottom-up recomputation, every key has a proof that folds (own SHA-256) to the root.",
          "trusts: hook H3 (free-list order), get_node/get_keys_values as observation of contents; Err is accepted for any operation as long as nothing changed (the property does not say which operations must succeed)",
          "DESIGN.md#c18"),
  "C15": ("S", "model_checking",
@@ -64,7 +64,7 @@ CHECKS = {
          "DESIGN.md#c07"),
  "C08": ("E", "exploration",
          "bounded-exhaustive differential enumeration of spend bundles through the mempool path and four block-generator constructions",
-         "Every bundle of the stated alphabet (one spend x 23 amounts covering every encoding length class x 4 puzzle kinds x <=1 of ~108 interaction letters, a wrong-declared-hash letter per amount, every ordered pair of letters on the identity puzzle (quick: one third), two spends sharing the puzzle reveal with <=1 letter each, an ephemeral chain, and three really signed bundles through each builder with the middle one declined after serialisation, validated with signature checking) under the 8 combinations of MEMPOOL_MODE, COST_CONDITIONS, INTERNED_GENERATOR is run through run_spendbundle and through run_block_generator2 on solution_generator, solution_generator_backrefs, BlockBuilder and InternedBlockBuilder output: same verdict, same conditions (mempool-only flags masked), equal condition cost, execution cost + 20, plain-generator cost - direct cost = 20 + 2*cost_per_byte (20 under INTERNED_GENERATOR), solution_generator bytes = harness rendering and calculate_generator_length = actual length.",
+         "Every bundle of the stated alphabet (one spend x 23 amounts covering every encoding length class x 4 puzzle kinds x <=1 of ~108 interaction letters, a wrong-declared-hash letter per amount, every ordered pair of letters on the identity puzzle, two spends sharing the puzzle reveal with <=1 letter each, an ephemeral chain, and three really signed bundles through each builder with the middle one declined after serialisation, validated with signature checking) under the 8 combinations of MEMPOOL_MODE, COST_CONDITIONS, INTERNED_GENERATOR is run through run_spendbundle and through run_block_generator2 on solution_generator, solution_generator_backrefs, BlockBuilder and InternedBlockBuilder output: same verdict, same conditions (mempool-only flags masked), equal condition cost, execution cost + 20, plain-generator cost - direct cost = 20 + 2*cost_per_byte (20 under INTERNED_GENERATOR), solution_generator bytes = harness rendering and calculate_generator_length = actual length.",
          "trusts: harness generator rendering (mc::genr) and serialiser; puzzle reveals are the canonical plain serialisation (the property's precondition)",
          "DESIGN.md#c08"),
  "C13": ("E", "exploration",
